@@ -727,3 +727,142 @@ def role4_last_record_wins(P, R, L, rule="ROLE-4"):
                 "the accumulator of %s takes the value of every record that carries one (the newest record decides)" % fld,
                 why if not defs_ok else ("ok (%d in-loop definitions)" % seen if seen else "no in-loop definition from the record's field"))
     R.floor(rule, "in-loop accumulator definitions in VersionSet::recover", n, 4)
+
+
+# ------------------------------------------------------------------------------------------- GRD-4 (manifest) nothing is appended to the manifest once an append has failed
+COMPACT_TABLES = "compaction::worker::CompactionWorker::compact_tables"
+
+
+def grd4b_no_manifest_append_under_sticky_error(P, R, L, rule="GRD-4"):
+    """A failed manifest append (VersionSet::log_and_apply) records the sticky error and can leave a partially written record at the
+    end of the manifest.  Recovery reads a torn TAIL as the end of the log, but a record appended BEHIND torn bytes makes the manifest
+    unreadable (strict reader: checksum mismatch) - every acknowledged write becomes inaccessible after a fault that is long gone.
+    compaction_task and the writers are gated by GRD-4 already; the table compaction that is in flight when a flush fails is not
+    stopped by those gates, so: (a) inside the merge loop of compact_tables a pending immutable memtable is flushed only over the
+    None edge of a test of `maybe_bad_database_state`; (b) between the end of the merge and install_compaction_results the sticky
+    error is consulted on every path (it flows into the compaction's error status)."""
+    from . import common as K
+    b = P.body(COMPACT_TABLES)
+    if b is None:
+        return R.missing_anchor(rule, COMPACT_TABLES)
+    R.analysed(b)
+    n = 0
+    # (a) flushes inside the merge loop (the closure handed to unlocked_fair, or the body itself)
+    for x in [b] + _all_closures(b):
+        flushes = [c for c in x.calls() if not x.is_cleanup(c.bb) and (c.name or "").endswith("CompactionWorker::compact_memtable")]
+        if not flushes:
+            continue
+        R.analysed(x)
+        none_e = K.field_option_edges(x, "maybe_bad_database_state")[1]
+        for c in flushes:
+            n += 1
+            ok = bool(none_e) and x.must_pass(c.bb, through_edges=none_e)
+            R.check(rule, "%s|no-flush-retry-under-sticky-error" % x.path, ok, c.where(),
+                    "a flush inside a running table compaction is attempted only over the None edge of a test of maybe_bad_database_state (a failed flush is not retried on the next entry)",
+                    "ok" if ok else "compact_memtable is reachable without the sticky-error test (None edges: %s)" % none_e)
+    R.floor(rule, "flush sites inside compact_tables", n, 1)
+    # (b) the install
+    installs = [c for c in b.calls() if not b.is_cleanup(c.bb) and (c.name or "").endswith("install_compaction_results")]
+    merges = [c for c in b.calls() if not b.is_cleanup(c.bb) and (c.name or "").endswith("unlocked_fair")]
+    reads = sorted(field_reads(b, "maybe_bad_database_state"))
+    ok = bool(installs) and bool(merges) and bool(reads) and all(
+        b.must_pass_fs(i.bb, through_nodes=reads, start=m.target) for i in installs for m in merges if m.target is not None and i.bb in b.reachable(m.target))
+    R.check(rule, COMPACT_TABLES + "|sticky-error-consulted-before-install", ok, where(b),
+            "every path from the end of the merge to install_compaction_results reads maybe_bad_database_state (a flush that failed during the merge stops the install)",
+            "ok (read in blocks %s)" % reads[:4] if ok else "install sites %d, merge sections %d, reads of the sticky error %s" % (len(installs), len(merges), reads[:4]))
+
+
+def _all_closures(b):
+    out, todo = [], [b]
+    while todo:
+        x = todo.pop()
+        for c in x.closures():
+            out.append(c)
+            todo.append(c)
+    return out
+
+
+# ------------------------------------------------------------------------------------------- PAIR-18 the flush-pending flag mirrors the immutable-memtable slot
+def pair18_flush_flag_mirrors_slot(P, R, L, rule="PAIR-18"):
+    """`has_immutable_memtable` (an atomic the compaction thread polls without the mutex) is a hint; the truth is the slot
+    `maybe_immutable_memtable`, which readers capture under the mutex.  While a flush is in flight the slot holds the only copy of
+    the rotated entries.  A reader (DB::get / DB::new_iterator) that makes its capture of the slot depend on the flag is only as
+    good as the flag: decided here is the CONJUNCTION - if a reader consults the flag, then every site that lowers it is dominated
+    by the emptying of the slot (take() / `= None`) in the same function.  Either half alone leaves behaviour unchanged (under the
+    mutex flag and slot agree; nobody but the compaction loop reads an early-lowered flag) and is accepted."""
+    readers = []
+    for fn in ("db::DB::get", "db::DB::new_iterator"):
+        b = P.body(fn)
+        if b is None:
+            R.missing_anchor(rule, fn)
+            continue
+        R.analysed(b)
+        for x in [b] + _all_closures(b):
+            for c in x.calls():
+                if not x.is_cleanup(c.bb) and _last(c.name) == "load" and ("AtomicBool" in (c.name or "") or "atomic::Atomic" in (c.name or "")) and c.args and \
+                        any("has_immutable_memtable" in o.path or (o.kind == "upvar" and o.name == "has_immutable_memtable") for o in origins(x, c.args[0])):
+                    readers.append("%s (line %s)" % (fn, c.t.get("line")))
+    n_low, early = 0, []
+    for p, b in sorted(P.bodies.items()):
+        for c in b.calls():
+            if b.is_cleanup(c.bb) or _last(c.name) != "store" or not ("AtomicBool" in (c.name or "") or "atomic::Atomic" in (c.name or "")) or len(c.args) < 2:
+                continue
+            if not any("has_immutable_memtable" in o.path or (o.kind == "upvar" and o.name == "has_immutable_memtable") for o in origins(b, c.args[0])):
+                continue
+            val = c.args[1]
+            if not (val.get("k") == "const" and str(val.get("val")) in ("0", "false")):
+                continue
+            n_low += 1
+            R.analysed(b)
+            clears = [x.bb for x in b.calls() if not b.is_cleanup(x.bb) and _last(x.name) == "take" and x.args and
+                      any("maybe_immutable_memtable" in o.path for o in origins(b, x.args[0]))]
+            for (bb, i, st) in field_stores(b, "maybe_immutable_memtable"):
+                rv = st["rv"]
+                if rv["k"] == "aggregate" and rv.get("variant") == "None":
+                    clears.append(bb)
+                elif rv["k"] == "use" and any(o.kind == "agg" and (o.name or "").endswith("None") for o in origins(b, rv["ops"][0])):
+                    clears.append(bb)
+            if not (clears and b.must_pass(c.bb, through_nodes=clears)):
+                early.append("%s (line %s)" % (p, c.t.get("line")))
+    R.floor(rule, "sites that lower has_immutable_memtable", n_low, 1)
+    ok = not (readers and early)
+    R.check(rule, "db::DB|a-reader-that-trusts-the-flush-flag-needs-a-flag-that-mirrors-the-slot", ok, "src/db.rs",
+            "no reader makes its capture of maybe_immutable_memtable depend on has_immutable_memtable while some site lowers that flag before the slot is emptied",
+            "ok (readers consulting the flag: %d; early lowering sites: %d)" % (len(readers), len(early)) if ok else
+            "%s consults the flag, and %s lowers it while the slot still holds the memtable" % (readers[0], early[0]))
+
+
+# ------------------------------------------------------------------------------------------- PAIR-8 (skip key) a backward-to-forward turn keeps the key that is being shown
+def pair8d_reversal_keeps_shown_key(P, R, L, rule="PAIR-8"):
+    """DatabaseIterator::next after backward travel: `cached_user_key` holds the user key of the entry the client is looking at, and
+    the inner iterator stands BEFORE that key's records.  find_next_client_entry(true) skips everything up to and including the
+    cached key - so between the `direction == Backward` edge and that call the cached key is not replaced by a key read from the
+    inner iterator (the record in front of the shown key may belong to a key that is invisible at this snapshot: the forward
+    search would then stop on the shown key again)."""
+    from . import common as K
+    fn = "<iterator::DatabaseIterator as iterator::RainDbIterator>::next"
+    b = P.body(fn)
+    if b is None:
+        return R.missing_anchor(rule, fn)
+    R.analysed(b)
+    hs = K.static_sites_reaching(P, b, "iterator::DatabaseIterator::find_next_client_entry")
+    e = K.variant_edges(P, b, "iterator::DbIterationDirection", "Backward", K.origin_pred_field("direction"))
+    stores = []
+    for (bb, i, st) in field_stores(b, "cached_user_key"):
+        rv = st["rv"]
+        is_none = (rv["k"] == "aggregate" and rv.get("variant") == "None") or \
+            (rv["k"] == "use" and any(o.kind == "agg" and (o.name or "").endswith("None") for o in origins(b, rv["ops"][0])) and
+             not any(o.kind == "agg" and (o.name or "").endswith("Some") for o in origins(b, rv["ops"][0])))
+        if not is_none:
+            stores.append(bb)
+    bad = []
+    for (sb, tg) in e:
+        r = b.reachable(tg)
+        for s in stores:
+            if s in r and any(h.bb in b.reachable(s) for h in hs):
+                bad.append(b.blocks[s]["stmts"][0].get("line") if b.blocks[s]["stmts"] else s)
+    ok = bool(hs) and bool(e) and not bad
+    R.check(rule, fn + "|reversal-keeps-the-shown-key", ok, where(b),
+            "from the `direction == Backward` edge to find_next_client_entry no key is stored into cached_user_key",
+            "ok (direction edges %d, other stores %d)" % (len(e), len(stores)) if ok else
+            ("cached_user_key is overwritten on the reversal path (line %s)" % bad[0] if bad else "helper sites %d, direction edges %d" % (len(hs), len(e))))
